@@ -61,28 +61,36 @@ WFCase(c) == /\ \A i \in 1..Len(c.reqs) : WFReq(c.reqs[i])
 (* PROPERTY LAYER (ldd): the base-name rule and Resolve                    *)
 (***************************************************************************)
 \* "base name is lib<name> followed by a character other than a letter, digit, underscore or hyphen"
-MatchesBase(bc, r) == LET p == LIB \o r
-                      IN Len(bc) > Len(p) /\ SubSeq(bc, 1, Len(p)) = p /\ bc[Len(p) + 1] \notin IdChars
+\* (index arithmetic instead of SubSeq: the trace specs evaluate this a few million times)
+PrefixAt(s, k, p) == k + Len(p) - 1 <= Len(s) /\ \A i \in 1..Len(p) : s[k + i - 1] = p[i]      \* p occurs in s at position k
+MatchAtP(s, k, p) == PrefixAt(s, k, p) /\ k + Len(p) <= Len(s) /\ s[k + Len(p)] \notin IdChars    \* ... followed by a non-identifier character
+MatchesBase(bc, r) == MatchAtP(bc, 1, LIB \o r)
 
 Pos(c) == UNION {{<<i, j>> : j \in 1..Len(c.listing[i])} : i \in 1..Len(c.listing)}
 Before(p, q) == p[1] < q[1] \/ (p[1] = q[1] /\ p[2] < q[2])      \* line order, then word order
 At(c, p) == c.listing[p[1]][p[2]]
 Hdr(c) == {p \in Pos(c) : EndsWithColon(c.listing[p[1]])}        \* header lines naming the binary
 Live(c) == Pos(c) \ Hdr(c)
-ReqSet(c) == ToSet(c.reqs)
+\* C19 speaks about library NAMES.  A request that names an existing file is the scanner's other input form
+\* ("library given as a path": linked by path in ccompiler.get_external_link_flags, no pattern here) and is
+\* left to the code; the remaining requests of the same call are still judged.
+Named(c) == {i \in 1..Len(c.reqs) : c.reqs[i] \notin ToSet(c.files)}
+ReqSet(c) == {c.reqs[i] : i \in Named(c)}
 M(c, r) == {p \in Live(c) : MatchesBase(At(c, p).bc, r)}
-F(c, r) == CHOOSE p \in M(c, r) : \A q \in M(c, r) : q = p \/ Before(p, q)
+FirstOf(S) == CHOOSE p \in S : \A q \in S : q = p \/ Before(p, q)
+F(c, r) == FirstOf(M(c, r))
 Missing(c) == {r \in ReqSet(c) : M(c, r) = {}}
 
 \* the expected resolution: per request the first matching word, by base name; or failure naming the missing ones
 \* (a name is the sequence of its characters)
-Resolve(c) == IF Missing(c) # {}
-              THEN [kind |-> "exit", files |-> {}, missing |-> Missing(c)]
-              ELSE [kind |-> "ok", files |-> {At(c, F(c, r)).bc : r \in ReqSet(c)}, missing |-> {}]
+Resolve(c) == LET missing == Missing(c)
+              IN IF missing # {}
+                 THEN [kind |-> "exit", files |-> {}, missing |-> missing]
+                 ELSE [kind |-> "ok", files |-> {At(c, F(c, r)).bc : r \in ReqSet(c)}, missing |-> {}]
 
 \* the quantifier's precondition: no single listed file could satisfy two requests
-Unambiguous(c) == \A p \in Live(c) : \A i, j \in 1..Len(c.reqs) :
-                     i < j => ~(MatchesBase(At(c, p).bc, c.reqs[i]) /\ MatchesBase(At(c, p).bc, c.reqs[j]))
+Unambiguous(c) == \A p \in Live(c) : LET bc == At(c, p).bc
+                                      IN Cardinality({i \in Named(c) : MatchesBase(bc, c.reqs[i])}) <= 1
 InDomain(c) == WFCase(c) /\ Unambiguous(c)
 
 \* an outcome is [kind |-> "ok" | "exit" | "other", out |-> sequence of reported names, msgc |-> message characters]
@@ -90,10 +98,11 @@ Forms(w) == {w.bc, FC(w)}                 \* a reported entry denotes a word by 
 
 \* words that must NOT be taken for request r although they resemble it
 NearMiss(w, r) ==
-  /\ ~MatchesBase(w.bc, r)
-  /\ \/ HasPrefix(w.bc, LIB \o r)                                           \* libpangoft2, libfoo-bar, libfoo_x, bare libfoo
-     \/ \E k \in 2..Len(w.bc) : MatchesBase(Suffix(w.bc, k), r)             \* liblibfoo.so, xlibfoo.so
-     \/ \E a \in 1..Len(w.dc) : (a = 1 \/ w.dc[a - 1] = "/") /\ HasPrefix(Suffix(w.dc, a), LIB \o r)   \* .../libpango-1.0/...
+  LET p == LIB \o r
+  IN /\ ~MatchAtP(w.bc, 1, p)
+     /\ \/ PrefixAt(w.bc, 1, p)                                               \* libpangoft2, libfoo-bar, libfoo_x, bare libfoo
+        \/ \E k \in 2..Len(w.bc) : MatchAtP(w.bc, k, p)                         \* liblibfoo.so, xlibfoo.so
+        \/ \E a \in 1..Len(w.dc) : (a = 1 \/ w.dc[a - 1] = "/") /\ PrefixAt(w.dc, a, p)   \* .../libpango-1.0/...
 
 \* The clauses of the statement, and when each of them speaks (vacuity accounting).
 \* (LET values are computed once per judgement; m, first, missing tabulate M, F, Missing above.)
@@ -102,12 +111,12 @@ Judge(c, o) ==
       hdr == {p \in pos : EndsWithColon(c.listing[p[1]])}
       live == pos \ hdr
       reqs == ReqSet(c)
-      nreq == Len(c.reqs)
-      m == [r \in reqs |-> {p \in live : MatchesBase(At(c, p).bc, r)}]
+      named == Named(c)
+      m == TLCEval([r \in reqs |-> {p \in live : MatchesBase(At(c, p).bc, r)}])     \* TLCEval: tabulate (a function constructor is lazy in TLC)
       missing == {r \in reqs : m[r] = {}}
-      first == [r \in reqs \ missing |-> CHOOSE p \in m[r] : \A q \in m[r] : q = p \/ Before(p, q)]
+      first == TLCEval([r \in reqs \ missing |-> FirstOf(m[r])])
       dom == /\ WFCase(c)
-             /\ \A p \in live : \A i, j \in 1..nreq : (i < j /\ p \in m[c.reqs[i]]) => p \notin m[c.reqs[j]]
+             /\ \A p \in live : \A i, j \in named : (i < j /\ p \in m[c.reqs[i]]) => p \notin m[c.reqs[j]]
       outs == 1..Len(o.out)
       hdrT == \E p \in hdr : \E r \in reqs : MatchesBase(At(c, p).bc, r)
       sibT == \E p \in live : \E r \in reqs : NearMiss(At(c, p), r)
@@ -140,7 +149,8 @@ Judge(c, o) ==
   ByBaseName   |-> dom /\ missing = {} /\ \E r \in reqs : At(c, first[r]).dc # <<>>,
   HeaderIgnored |-> dom /\ hdrT,
   NeverPrefixSibling |-> dom /\ sibT,
-  FailLoudly   |-> dom /\ missing # {} ]]
+  FailLoudly   |-> dom /\ missing # {} ],
+  dom |-> dom ]
 
 ClauseNames == {"RightFile", "FirstListed", "ByBaseName", "HeaderIgnored", "NeverPrefixSibling", "FailLoudly"}
 Clauses(c, o) == Judge(c, o).cl
@@ -216,25 +226,25 @@ LaKind(a) == IF ~LaHas(a) THEN "dlname_absent"
 LaWF(a) == /\ \A i \in 1..Len(a.lines) : "\n" \notin Chars(a.lines[i])
            /\ LaHas(a) => "'" \notin Chars(LaVal(a))
            /\ a.name # <<>>
-           /\ Cardinality(LaLines(a)) <= 1                 \* libtool writes the field once
+LaIn(a) == LaWF(a) /\ Cardinality(LaLines(a)) <= 1         \* libtool writes the field once; otherwise the statement does not say which one counts
 
 LaClauses(a, o) == [
   \* libtool archives resolve to their dlname
-  LaDlname    |-> (LaWF(a) /\ LaKind(a) = "dlname_plain") => (o.kind = "ok" /\ o.out = <<LaVal(a)>>),
+  LaDlname    |-> (LaIn(a) /\ LaKind(a) = "dlname_plain") => (o.kind = "ok" /\ o.out = <<LaVal(a)>>),
   \* old libtools wrote a path: the statement does not say which form is reported, but nothing else may be
-  LaPath      |-> (LaWF(a) /\ LaKind(a) = "dlname_with_path" /\ o.kind = "ok" /\ o.out # <<>>) =>
+  LaPath      |-> (LaIn(a) /\ LaKind(a) = "dlname_with_path" /\ o.kind = "ok" /\ o.out # <<>>) =>
                      o.out \in {<<LaVal(a)>>, <<Basename(LaVal(a))>>},
   \* a requested archive that does not resolve stops the scan with an error naming it
-  LaFailLoudly |-> LaWF(a) => ( (o.kind = "ok" => o.out # <<>>)
+  LaFailLoudly |-> LaIn(a) => ( (o.kind = "ok" => o.out # <<>>)
                                /\ ((LaKind(a) \in {"dlname_absent", "dlname_empty", "dlname_is_directory"})
                                      => (o.kind = "exit" /\ Occurs(o.msgc, a.name))) ) ]
 LaClauseNames == {"LaDlname", "LaPath", "LaFailLoudly"}
-LaSpeaks(a) == [LaDlname |-> LaWF(a) /\ LaKind(a) = "dlname_plain",
-                LaPath |-> LaWF(a) /\ LaKind(a) = "dlname_with_path",
-                LaFailLoudly |-> LaWF(a) /\ LaKind(a) # "dlname_plain"]
+LaSpeaks(a) == [LaDlname |-> LaIn(a) /\ LaKind(a) = "dlname_plain",
+                LaPath |-> LaIn(a) /\ LaKind(a) = "dlname_with_path",
+                LaFailLoudly |-> LaIn(a) /\ LaKind(a) # "dlname_plain"]
 
-\* implementation: _libtool_pat = re.compile("dlname='([A-z0-9\\.\\-\\+]+)'\n").search(data)
-LtClass == Upper \cup Lower \cup {"[", "\\", "]", "^", "_", "`"} \cup Digit \cup {".", "-", "+"}      \* A-z is the ASCII range 0x41..0x7A
+\* implementation: _libtool_pat = re.compile("dlname='([A-z0-9\\.\\-\\+/]+)'\n").search(data)
+LtClass == Upper \cup Lower \cup {"[", "\\", "]", "^", "_", "`"} \cup Digit \cup {".", "-", "+", "/"}      \* A-z is the ASCII range 0x41..0x7A
 LaText(a) == FoldLeft(LAMBDA acc, l : acc \o l \o <<"\n">>, <<>>, a.lines)      \* every line newline-terminated
 LaSearch(txt) ==
   LET n == Len(txt)
@@ -320,7 +330,7 @@ Alias == [case |-> case, st |-> st, outcome |-> outcome,
 -----------------------------------------------------------------------------
 (* implementation layer => property layer *)
 Done == st.pc = "done"
-TypeOK == /\ st.pc \in {"start", "scan", "done"}
+TypeOK == /\ st.pc \in {"pick", "start", "scan", "done"}      \* "pick": ShlibsMC is still choosing the lines of the case
           /\ Done <=> outcome # None
           /\ (IsLdd /\ st.pc = "scan") => Len(st.pats) + Len(st.shl) = Len(Patterns(case))
 \* the small-step machine and the functional transcription agree
@@ -335,9 +345,10 @@ Inv_HeaderIgnored == (Done /\ IsLdd) => Clauses(case, outcome).HeaderIgnored
 Inv_NeverPrefixSibling == (Done /\ IsLdd) => Clauses(case, outcome).NeverPrefixSibling
 Inv_FailLoudly == (Done /\ IsLdd) => Clauses(case, outcome).FailLoudly
 \* under the precondition the outcome IS the spec's resolution (as a set of names; the statement fixes no order)
-Inv_EqualsResolve == (Done /\ IsLdd /\ case.files = <<>> /\ InDomain(case)) =>
-                        /\ outcome.kind = Resolve(case).kind
-                        /\ outcome.kind = "ok" => ToSet(outcome.out) = Resolve(case).files
+Inv_EqualsResolve == (Done /\ IsLdd /\ InDomain(case)) =>
+                        LET res == Resolve(case)
+                        IN /\ outcome.kind = res.kind
+                           /\ outcome.kind = "ok" => ToSet(outcome.out) = res.files
 \* while scanning, what has been collected are first matches of distinct requests
 Inv_Progress == (Small /\ Variant = "asis" /\ st.pc = "scan" /\ st.wi = 1 /\ InDomain(case)) =>
                    \A k \in 1..Len(st.shl) : \E r \in ReqSet(case) : M(case, r) # {} /\ st.shl[k] = FC(At(case, F(case, r)))
